@@ -338,7 +338,7 @@ def one_instance(ctx, desc):
         enc = enc_cls(inst)
         perm = wb.gen_perm(rng, desc, str(rng.choice(wb.PERM_KINDS)))
         y = space.create()
-        enc.decode(wb.x_array(perm, inst), y)
+        enc.decode(wb.x_buffer(perm, inst), y)
         rows = wb.rows_of(y)
         if po.infeasibility(desc, rows, y.n_bins) is None:
             feas.append(("decoded", rows, y.n_bins))
